@@ -17,7 +17,7 @@ func swIdent(sw *Switchover) string {
 	if sw == nil {
 		return ""
 	}
-	return fmt.Sprintf("%s>%s/%s/%s@%d", sw.From, sw.To, sw.Cause, sw.MasterTransition, sw.InitiatedAt.UnixNano())
+	return fmt.Sprintf("%s>%s/%s/%s@%d by %s", sw.From, sw.To, sw.Cause, sw.MasterTransition, sw.InitiatedAt.UnixNano(), sw.InitiatedBy)
 }
 
 func swFromRaw(raw string) *Switchover {
@@ -124,7 +124,7 @@ func c06Monitor(m *vk.Meta, in mgrIn, out mgrOut) {
 		}
 		if st.Raced {
 			// the second initiator's request was there first: it must still be the pending one (or have been processed), never replaced
-			if after != nil && after.InitiatedBy != "operator" {
+			if after != nil && !strings.HasPrefix(after.InitiatedBy, "operator") {
 				viol("a new request is never filed over a pending one", "the manager's own request replaced the one filed meanwhile by "+in.RaceSwitch.Cause, nil)
 			}
 		}
